@@ -1,5 +1,6 @@
 import LiquidVerif.Lemmas.Inherit
 import LiquidVerif.Lemmas.InheritFlat
+import LiquidVerif.Lemmas.InheritAssign
 /-!
 # C18 — template inheritance resolves blocks to the most-derived definition
 
@@ -314,6 +315,97 @@ theorem erase_scope_counterexample :
   generalize defsOf [capChild, capParent] = res at hd h1
   simp [flatItems, flatItem, hd, eraseScopes, eraseScope, renderPlains_cons, renderPlains_nil, renderPlain,
     renderPlainLoop_succ, renderPlainLoop_zero, seqOut, lookupVar] at h1
+
+/-- root: `{% for i in (1..n) %}{% block a %}{{ i }}{% endblock %}{% endfor %}` -/
+def loopRoot (n : Nat) : Template := ⟨[.node (.loop "i" n [.block "a" false [.var "i"]])]⟩
+/-- child: `{% extends 'r' %}{% block a %}<{{ block.super }}>{% endblock %}` -/
+def loopChild : Template := ⟨[.ext "r", .node (.block "a" false [.text "<", .super, .text ">"])]⟩
+
+/-- `<n-k+1><n-k+2>…<n>` -/
+def loopOut (n : Nat) : Nat → String
+  | 0 => ""
+  | k + 1 => ("<" ++ (toString (n - k) ++ ">")) ++ loopOut n k
+
+/-- **A block inside a `for` whose `block.super` depends on the loop variable** (any number of iterations): the
+overriding definition and, through `block.super`, the parent definition are rendered afresh in every iteration,
+in the scope of the block tag — the parent's `{{ i }}` prints the current value each time (a cached super output,
+seeded change C18-2, would repeat the first one). -/
+theorem super_rerendered_per_iteration (lim n : Nat) (data : Scope) :
+    flatten lim [loopChild, loopRoot n] data = .ok (loopOut n n) := by
+  have hd : defsOf [loopChild, loopRoot n] "a"
+      = [⟨false, [.text "<", .super, .text ">"]⟩, ⟨false, [.var "i"]⟩] := by rfl
+  have hr : rootOf [loopChild, loopRoot n] = [.loop "i" n [.block "a" false [.var "i"]]] := by rfl
+  unfold flatten
+  rw [hr]
+  generalize defsOf [loopChild, loopRoot n] = res at hd
+  have key : ∀ k, renderLoop lim res 0 none [] data "i" n [.block "a" false [.var "i"]] k = .ok (loopOut n k) := by
+    intro k
+    induction k with
+    | zero => rw [renderLoop]; rfl
+    | succ k ih =>
+      rw [renderLoop, ih]
+      simp [renderItems_cons, renderItems_nil, renderItem, hd, seqOut, lookupVar, loopOut]
+  rw [renderItems_cons, renderItem, key n, renderItems_nil]
+  simp [seqOut]
+
+/-! ### assign / capture inside blocks (deepening round) -/
+
+/-- **A block is its own scope — the part that holds.** When the most-derived definition of a block has no
+`{{ block.super }}` at its top level, rendering the block tag leaves every live context's locals exactly as they
+were: whatever the definition (and the blocks nested in it, and their supers) assign is gone when the block ends.
+Holds in both modes (`m`), at any depth, for any resolver. -/
+theorem block_assign_scoped_partial (lim : Nat) (res : String → List ADef) (globals : Scope) (depth : Nat)
+    (m : Bool) (parents : List ADef) (fr : Frames) (name : String) (body : List AItem) (d : ADef) (ds : List ADef)
+    (out : String) (fr' : Frames)
+    (hd : res name = d :: ds) (hnt : noTopSupers d.body = true) (hs : Sized m fr)
+    (h : arenderItem lim res globals depth m parents fr (.block name body) = .ok (out, fr')) : fr' = fr := by
+  rw [arenderItem] at h
+  simp only [hd] at h
+  split at h
+  · cases h
+  · split at h
+    · cases h
+    · rename_i o r hok
+      cases h
+      have hne : 1 ≤ fr.length := by cases m <;> simp [Sized] at hs <;> omega
+      have := assign_frames.2 (depth + 1) true ds ([] :: fr) d.body (by simp [Sized]; omega) _ _ hok
+      simpa using (this.2.2 rfl).2 hnt
+
+/-- **… and the part that does not**: "a block never changes the locals of the context it stands in" is false as
+soon as the definition calls `block.super`: the parent definition runs on the block tag's own context
+(`BlockDrop.context`, via `extend`), so its `assign` survives the block. Witness: child
+`{% block a %}{{ block.super }}{% endblock %}`, parent `{% block a %}{% assign x = 'R' %}{% endblock %}`;
+replayed on the implementation as the known finding `assign-leak|super`. -/
+theorem block_assign_scoped_counterexample :
+    ¬ (∀ (lim : Nat) (res : String → List ADef) (globals : Scope) (depth : Nat) (m : Bool) (parents : List ADef)
+        (fr : Frames) (name : String) (body : List AItem) (out : String) (fr' : Frames), Sized m fr →
+        arenderItem lim res globals depth m parents fr (.block name body) = .ok (out, fr') → fr' = fr) := by
+  intro h
+  have := h 30 (fun _ => [⟨[.super]⟩, ⟨[.assign "x" "R"]⟩]) [] 0 false [] [[]] "a" [] "" [[("x", "R")]]
+    (by simp [Sized])
+    (by simp [arenderItem, arenderItems, assignHead])
+  simp at this
+
+/-- The same root, three renders: directly (`<R>`), extended by a child that overrides nothing (`<>`), extended
+by a child whose block only calls `block.super` (`R`-leak: `<R>`). Root:
+`{% block a %}{% assign x = 'R' %}{% endblock %}<{{ x }}>`. -/
+theorem assign_scope_depends_on_override (lim : Nat) :
+    let root : List AItem := [.block "a" [.assign "x" "R"], .text "<", .var "x", .text ">"]
+    arenderChain lim [root] [] = .ok ("<R>", [[("x", "R")]]) ∧
+    arenderChain lim [[], root] [] = .ok ("<>", [[]]) ∧
+    arenderChain lim [[.block "a" [.super]], root] [] = .ok ("<R>", [[("x", "R")]]) := by
+  refine ⟨?_, ?_, ?_⟩
+  · simp [arenderChain, arenderItems, arenderItem, assignHead, lookupFrames]
+  · have hd : adefsOf [[], [AItem.block "a" [.assign "x" "R"], .text "<", .var "x", .text ">"]] "a"
+        = [⟨[.assign "x" "R"]⟩] := by rfl
+    simp only [arenderChain]
+    generalize adefsOf [[], [AItem.block "a" [.assign "x" "R"], .text "<", .var "x", .text ">"]] = res at hd
+    simp [arenderItems, arenderItem, hd, assignHead, lookupFrames, lookupVar]
+  · have hd : adefsOf [[AItem.block "a" [.super]], [AItem.block "a" [.assign "x" "R"], .text "<", .var "x", .text ">"]] "a"
+        = [⟨[.super]⟩, ⟨[.assign "x" "R"]⟩] := by rfl
+    simp only [arenderChain]
+    generalize adefsOf [[AItem.block "a" [.super]], [AItem.block "a" [.assign "x" "R"], .text "<", .var "x", .text ">"]] = res at hd
+    simp [arenderItems, arenderItem, hd, assignHead, lookupFrames]
 
 /-! ### non-vacuity: the hypotheses of the theorems are met by concrete chains -/
 
